@@ -47,7 +47,10 @@ def param_list(rng, kinds, long_names):
                 seen_default = True
         elif k == "kwOnly" and rng.random() < 0.5:
             default = rng.choice(["None", "'x'"])
-        text = {"varPos": "*", "varKw": "**"}.get(k, "") + name + ("=" + default if default else "")
+        # a third of the parameters are annotated in the source (kept, dropped or overridden in the stub according to the flags:
+        # whatever happens to the annotation, name, kind and default stay)
+        anno = rng.choice([": float", ": 'str'", ": bytes"]) if rng.random() < 0.33 else ""
+        text = {"varPos": "*", "varKw": "**"}.get(k, "") + name + anno + ((" = " if anno else "=") + default if default else "")
         out.append(text)
         meta.append((name, k, default is not None))
     if not slash_done and any(m[1] == "posOnly" for m in meta):
@@ -336,6 +339,41 @@ def run(pid, tier, seed):
                                    "true" if p.default is not inspect.Parameter.empty else "false", an))
                     reqs.append(("renderToks",) + tuple(mp))
                     meta.append((dict(c2, width=width, rendered=rendered), toks))
+            # the same module under the other two annotation flags: names, kinds, order, defaults, decorators and async are those
+            # of the real functions whatever is done with the source's annotations
+            from monkeytype.stubs import ExistingAnnotationStrategy as _S
+            for sname, sval in (("omit", _S.OMIT), ("ignore", _S.IGNORE)):
+                chk.evaluations += 1
+                c3 = dict(case, strategy=sname)
+                try:
+                    text2 = build_module_stubs_from_traces(traces, 0, sval)[name].render()
+                    tree2 = ast.parse(text2)
+                except Exception as e:
+                    chk.fail("error-" + sname, dict(c3, error=repr(e)[:300]))
+                    continue
+                found2 = {}
+
+                def walk2(node, path):
+                    for n in node.body:
+                        if isinstance(n, ast.ClassDef):
+                            walk2(n, path + [n.name])
+                        elif isinstance(n, (ast.FunctionDef, ast.AsyncFunctionDef)):
+                            found2.setdefault(".".join(path + [n.name]), []).append(n)
+                walk2(tree2, [])
+                if set(found2) != want or any(len(v) != 1 for v in found2.values()):
+                    chk.fail("each-once", dict(c3, in_stub=sorted(found2), expected=sorted(want)))
+                    continue
+                for m in traced:
+                    fn = found2[m["qual"]][0]
+                    sp = stub_params(fn)
+                    rp = real_params(m["func"])
+                    if [(a, b, c) for a, b, c, _ in sp] != rp:
+                        chk.fail("signature", dict(c3, function=m["qual"], stub=[(a, b, c) for a, b, c, _ in sp], real=rp))
+                    if isinstance(fn, ast.AsyncFunctionDef) != (m["fkind"] in ASYNC_KINDS):
+                        chk.fail("async", dict(c3, function=m["qual"]))
+                    if m["params"] and m["params"][0][1] == "recv" and sp and sp[0][3] is not None:
+                        chk.fail("receiver-annotated", dict(c3, function=m["qual"]))
+                chk.nontriv("strategy|%s|%d" % (sname, ci))
             if len(chk.samples) < 2:
                 chk.sample({"module": name, "stub": text[:600]})
         for g, (case, toks) in zip(drv.ask_many(reqs), meta):
